@@ -210,6 +210,7 @@ type aggregate struct {
 	samples     []*Found
 	deaths      []death
 	cappedNames []string
+	budgetNote  string
 	errs        []string
 	warnings    []string
 	enum        EnumResult
@@ -250,9 +251,90 @@ func coordinate(prop, tier string) int {
 		n = 1
 	}
 	agg := &aggregate{perFamily: map[string]*Stats{}}
-	queue := make(chan *WorkItem, len(items))
+	budget := budgetFor(tier)
+	var all []*WorkItem
 	for i := range items {
-		queue <- &items[i]
+		all = append(all, &items[i])
+	}
+	results := map[int]*WorkResult{}
+	if budget == 0 {
+		runBatch(all, n, tier, agg, results)
+	} else {
+		// Two passes under a wall-clock budget: first every item with a small cap (the cheap ones finish completely),
+		// then the items that hit it again, sharing what is left of the budget.
+		const firstCap = 20
+		orig := map[int]int{}
+		for _, it := range all {
+			orig[it.ID] = it.Opts.MaxSeconds
+			if it.Kind == "explore" && (it.Opts.MaxSeconds == 0 || it.Opts.MaxSeconds > firstCap) {
+				it.Opts.MaxSeconds = firstCap
+			}
+		}
+		runBatch(all, n, tier, agg, results)
+		var again []*WorkItem
+		for _, it := range all {
+			if r := results[it.ID]; r != nil && r.Err == "" && r.Stats.Capped && it.Kind == "explore" && (orig[it.ID] == 0 || orig[it.ID] > firstCap) {
+				again = append(again, it)
+			}
+		}
+		remaining := budget - time.Since(start)
+		agg.budgetNote = fmt.Sprintf("wall budget %v: first pass with a cap of %d s per scenario took %v; %d scenarios hit the cap", budget, firstCap, time.Since(start).Round(time.Second), len(again))
+		if len(again) > 0 && remaining > 0 {
+			per := int(remaining.Seconds())
+			if len(again) > n {
+				per = int(remaining.Seconds() * float64(n) / float64(len(again)))
+			}
+			var second []*WorkItem
+			for _, it := range again {
+				c := per
+				if orig[it.ID] > 0 && orig[it.ID] < c {
+					c = orig[it.ID]
+				}
+				if c >= firstCap*3/2 {
+					it.Opts.MaxSeconds = c
+					second = append(second, it)
+				}
+			}
+			if len(second) > 0 {
+				agg.budgetNote += fmt.Sprintf("; second pass: %d of them explored again from scratch with a cap of up to %d s each", len(second), per)
+				runBatch(second, n, tier, agg, results)
+			}
+		}
+	}
+	for _, it := range all {
+		if r := results[it.ID]; r != nil {
+			agg.merge(it, r)
+		}
+	}
+	return report(pd, tier, agg, len(items), time.Since(start))
+}
+
+// budgetFor: the thorough tier runs under a wall-clock budget (default 40 min, VERIF_THOROUGH_BUDGET_MIN overrides,
+// 0 = none); the quick tier is bounded by the per-scenario caps alone.
+func budgetFor(tier string) time.Duration {
+	if *flagBudgetMin >= 0 {
+		return time.Duration(*flagBudgetMin) * time.Minute
+	}
+	if tier != "thorough" {
+		return 0
+	}
+	if v, err := strconv.Atoi(os.Getenv("VERIF_THOROUGH_BUDGET_MIN")); err == nil && v >= 0 {
+		return time.Duration(v) * time.Minute
+	}
+	return 40 * time.Minute
+}
+
+// runBatch runs the items on n worker processes and stores each result under the item's id.
+func runBatch(items []*WorkItem, n int, tier string, agg *aggregate, results map[int]*WorkResult) {
+	if n > len(items) {
+		n = len(items)
+	}
+	if n < 1 {
+		n = 1
+	}
+	queue := make(chan *WorkItem, len(items))
+	for _, it := range items {
+		queue <- it
 	}
 	close(queue)
 	var wg sync.WaitGroup
@@ -302,24 +384,26 @@ func coordinate(prop, tier string) int {
 					walb, _ := os.ReadFile(wp.wal)
 					agg.mu.Lock()
 					agg.deaths = append(agg.deaths, death{Item: it, Stderr: wp.stderr.String(), WAL: string(walb), Hung: hung.Load()})
+					delete(results, it.ID)
 					agg.mu.Unlock()
 					os.Remove(wp.wal)
 					wp = nil
 					continue
 				}
-				var res WorkResult
-				if err := json.Unmarshal(line, &res); err != nil {
+				res := &WorkResult{}
+				if err := json.Unmarshal(line, res); err != nil {
 					agg.mu.Lock()
 					agg.errs = append(agg.errs, "bad result: "+err.Error())
 					agg.mu.Unlock()
 					continue
 				}
-				agg.merge(it, &res)
+				agg.mu.Lock()
+				results[it.ID] = res
+				agg.mu.Unlock()
 			}
 		}(wi)
 	}
 	wg.Wait()
-	return report(pd, tier, agg, len(items), time.Since(start))
 }
 
 func (a *aggregate) merge(it *WorkItem, r *WorkResult) {
@@ -475,6 +559,9 @@ func report(pd *PropDef, tier string, agg *aggregate, nItems int, wall time.Dura
 		cov["outcomes_distinct"] = agg.stats.EndStates
 		cov["diverged"] = agg.stats.Diverged
 		cov["capped"] = agg.stats.Capped
+		if agg.budgetNote != "" {
+			cov["budget"] = agg.budgetNote
+		}
 		if len(agg.cappedNames) > 0 {
 			sort.Strings(agg.cappedNames)
 			cov["capped_scenarios"] = agg.cappedNames
